@@ -84,12 +84,16 @@ EmptyLoc == [i \in Insts |-> [mem |-> {}, fl |-> {}, oo |-> {}, co |-> {}]]
 \* retention policy (name_0000, name_0001, ...; -1 = never created), gen = generation counter of the
 \* specification (never reset).  ghm / ghq = rows of series marked deleted by DROP SERIES which are
 \* physically still there (must / maybe: a compaction may have purged them); nidx = does the series
-\* index of the policy hold entries of measurement "n" (they sort after those of "m").
+\* index of the policy hold entries of measurement "n" (they sort after those of "m"); wal = rows of series
+\* dropped while still in the memtable, i.e. still in the write-ahead log (a restart replays them);
+\* dead = [ver, s]: index entries of the series of a dropped measurement incarnation (not purged);
+\* cause = why the as-implemented rows of the instance differ from the design's ("cross", "wal").
 InitWorld == [db |-> TRUE, rps |-> RPs,
               ex  |-> [i \in Insts |-> FALSE],
               gen |-> [i \in Insts |-> 0],
               ver |-> [i \in Insts |-> -1],
               rows |-> NoRows, idx |-> NoRows, ghm |-> NoRows, ghq |-> NoRows,
+              wal |-> NoRows, dead |-> NoRows, cause |-> NoRows,
               nidx |-> [r \in RPs |-> "no"]]
 
 Usable(w, i) == w.db /\ RpOf(i) \in w.rps
@@ -145,16 +149,13 @@ RECURSIVE SumV(_)
 SumV(R)             == IF R = {} THEN 0 ELSE LET r == CHOOSE x \in R : TRUE IN r.v + SumV(R \ {r})
 CountBy(R)          == [h \in {r.s.host : r \in R} |-> Cardinality({r \in R : r.s.host = h})]
 SumBy(R)            == [h \in {r.s.host : r \in R} |-> SumV({r \in R : r.s.host = h})]
-\* listings: over the live series of every instance carrying the measurement name
-\* (SHOW SERIES / TAG KEYS / TAG VALUES FROM rp.name ignore the policy qualifier)
+\* listings: over the live series of the named measurement instance
 ShowSeries(S)       == S
 ShowTagKeys(S)      == IF S = {} THEN {} ELSE {"host", "region"}
 ShowTagValues(S, k) == {s[k] : s \in S}
 
 \* the design's expectation: every shape is a projection of the same live row set
 SeriesOfRows(R) == {r.s : r \in R}
-LiveOfName(w, n)    == UNION {Live(w, i) : i \in InstsOfName(n)}
-LiveIdxOfName(w, n) == UNION {LiveIdx(w, i) : i \in InstsOfName(n)}
 
 -----------------------------------------------------------------------------
 \* world transformers; dv = deviation set in force for that world, memrows = rows of the memory layer
@@ -172,6 +173,7 @@ WWrite(w, i, keys, v0, dv, oldrows) ==
                !.ver[i] = IF new THEN @ + 1 ELSE @,
                !.rows[i] = keep \cup nr \cup back,
                !.idx[i] = @ \cup {k[1] : k \in keys} \cup {r.s : r \in back},
+               !.wal[i] = {r \in @ : <<r.s, r.t>> \notin keys},
                !.nidx[RpOf(i)] = IF NameOf(i) = "n" THEN "yes" ELSE @]
 
 \* instances hit by DROP SERIES FROM i: the named one; as implemented also every other policy's
@@ -187,16 +189,25 @@ WDropSeries(w, i, p, dv, memrows) ==
       gone(j) == {r \in w.rows[j] : r.s \in D(j)}
       \* mutation seed: the drop forgets the rows still in the memtable
       rm(j)   == IF "drop_forgets_memtable" \in dv THEN gone(j) \ memrows[j] ELSE gone(j)
+      \* as implemented the index entries of a dropped incarnation with the same versioned name are reached too
+      DT      == IF "cross_rp_drop" \in dv THEN {j \in Insts : NameOf(j) = NameOf(i) /\ Usable(w, j)} ELSE {}
   IN [w EXCEPT !.rows = [j \in Insts |-> IF j \in T THEN w.rows[j] \ rm(j) ELSE w.rows[j]],
                \* mutation seed: the tag listing keeps the dropped values
                !.idx  = [j \in Insts |-> IF j \in T /\ "taglisting_keeps_dropped" \notin dv
                                            THEN w.idx[j] \ D(j) ELSE w.idx[j]],
-               !.ghm  = [j \in Insts |-> IF j \in T THEN w.ghm[j] \cup gone(j) ELSE w.ghm[j]]]
+               !.ghm  = [j \in Insts |-> IF j \in T THEN w.ghm[j] \cup gone(j) ELSE w.ghm[j]],
+               !.wal  = [j \in Insts |-> IF j \in T /\ "wal_replay_resurrects" \in dv
+                                           THEN w.wal[j] \cup (gone(j) \cap memrows[j]) ELSE w.wal[j]],
+               !.dead = [j \in Insts |-> IF j \in DT THEN {d \in w.dead[j] : ~(d.ver = w.ver[i] /\ Sat(p, d.s))} ELSE w.dead[j]],
+               !.cause = [j \in Insts |-> IF j \in T \ {i} /\ gone(j) # {} THEN w.cause[j] \cup {"cross"} ELSE w.cause[j]]]
 
 WDropMeasurement(w, i, dv, memrows) ==
   LET keep == IF "drop_forgets_memtable" \in dv THEN w.rows[i] \cap memrows[i] ELSE {}
   IN [w EXCEPT !.ex[i] = FALSE, !.rows[i] = keep, !.idx[i] = {r.s : r \in keep},
-               !.ghm[i] = {}, !.ghq[i] = {},
+               !.ghm[i] = {}, !.ghq[i] = {}, !.cause[i] = {},
+               \* shard.DropMeasurement flushes the shard: nothing of the policy is left in the log only
+               !.wal = [j \in Insts |-> IF RpOf(j) = RpOf(i) THEN {} ELSE w.wal[j]],
+               !.dead[i] = IF "dead_index_listed" \in dv THEN @ \cup {[ver |-> w.ver[i], s |-> s] : s \in w.idx[i]} ELSE @,
                !.nidx[RpOf(i)] = IF NameOf(i) = "n" /\ @ = "yes" THEN "maybe" ELSE @]
 
 WDropRP(w, rp) ==
@@ -207,6 +218,9 @@ WDropRP(w, rp) ==
             !.idx  = [j \in Insts |-> IF RpOf(j) = rp THEN {} ELSE w.idx[j]],
             !.ghm  = [j \in Insts |-> IF RpOf(j) = rp THEN {} ELSE w.ghm[j]],
             !.ghq  = [j \in Insts |-> IF RpOf(j) = rp THEN {} ELSE w.ghq[j]],
+            !.wal  = [j \in Insts |-> IF RpOf(j) = rp THEN {} ELSE w.wal[j]],
+            !.dead = [j \in Insts |-> IF RpOf(j) = rp THEN {} ELSE w.dead[j]],
+            !.cause = [j \in Insts |-> IF RpOf(j) = rp THEN {} ELSE w.cause[j]],
             !.nidx[rp] = "no"]
 
 WCreateRP(w, rp) == [w EXCEPT !.rps = @ \cup {rp}]
@@ -214,12 +228,28 @@ WCreateRP(w, rp) == [w EXCEPT !.rps = @ \cup {rp}]
 WDropDatabase(w) ==
   [w EXCEPT !.db = FALSE, !.rps = {}, !.ex = [j \in Insts |-> FALSE], !.ver = [j \in Insts |-> -1],
             !.rows = NoRows, !.idx = NoRows, !.ghm = NoRows, !.ghq = NoRows,
+            !.wal = NoRows, !.dead = NoRows, !.cause = NoRows,
             !.nidx = [r \in RPs |-> "no"]]
 
 WCreateDatabase(w) == [w EXCEPT !.db = TRUE, !.rps = RPs]
 
 \* a compaction may purge rows of series marked deleted (engine/immutable/compact.go skips them)
 WCompact(w) == [w EXCEPT !.ghq = [j \in Insts |-> w.ghq[j] \cup w.ghm[j]], !.ghm = NoRows]
+
+\* a flush empties the memtable: nothing is left in the write-ahead log only
+WFlush(w) == [w EXCEPT !.wal = NoRows]
+
+\* as implemented: the rows of a series dropped while they were still in the write-ahead log are replayed by the
+\* next start and come back (as rows of a new series)
+WRestartImpl(w, dv) ==
+  IF "wal_replay_resurrects" \in dv
+    THEN [w EXCEPT !.rows = [j \in Insts |-> w.rows[j] \cup w.wal[j]],
+                   !.idx  = [j \in Insts |-> w.idx[j] \cup {r.s : r \in w.wal[j]}],
+                   !.ghm  = [j \in Insts |-> w.ghm[j] \ w.wal[j]],
+                   !.ghq  = [j \in Insts |-> w.ghq[j] \ w.wal[j]],
+                   !.cause = [j \in Insts |-> IF w.wal[j] # {} THEN w.cause[j] \cup {"wal"} ELSE w.cause[j]],
+                   !.wal  = NoRows]
+    ELSE w
 
 \* mutation seed: a restart resurrects the series dropped by DROP SERIES
 WRestart(w, dv, dr) ==
@@ -266,22 +296,28 @@ ShapesOf(R, k) ==
 ListingOf(S) == [series |-> SerJ(ShowSeries(S)), tkeys |-> SetToSeq(ShowTagKeys(S)),
                  thost |-> SetToSeq(ShowTagValues(S, "host")), tregion |-> SetToSeq(ShowTagValues(S, "region"))]
 
-\* design expectation after an action (world w)
+\* design expectation after an action (world w): per measurement instance every selection shape over its live
+\* rows and every listing over its live series
 ExpOf(w, k) == [k |-> k,
-                inst |-> [i \in Insts |-> ShapesOf(Live(w, i), k)],
-                name |-> [n \in Names |-> ListingOf(LiveIdxOfName(w, n))]]
+                inst |-> [i \in Insts |-> [sel |-> ShapesOf(Live(w, i), k), list |-> ListingOf(LiveIdx(w, i))]]]
 
-\* what the as-implemented world predicts: live rows, rows of deleted series still on disk (must /
-\* maybe), whether scans by measurement name skip the deleted set (entries of "n" follow those of "m")
+\* what the as-implemented world predicts: live rows and series, rows of deleted series still on disk (must /
+\* maybe), whether scans by measurement name skip the deleted set (entries of "n" follow those of "m"), the
+\* version suffix (listings and DROP SERIES reach every policy holding the same versioned name)
 NameScanLeak(w, i) == IF "name_scan_leak" \in ImplDev /\ NameOf(i) = "m" /\ Usable(w, i) THEN w.nidx[RpOf(i)] ELSE "no"
+Flag(d) == IF d \in ImplDev THEN "yes" ELSE "no"
 ImpOf(w) == [inst |-> [i \in Insts |-> [live |-> RowsJ(Live(w, i)),
+                                         ser  |-> SerJ(LiveIdx(w, i)),
+                                         ex   |-> IF Usable(w, i) /\ w.ex[i] THEN "yes" ELSE "no",
+                                         ver  |-> w.ver[i],
+                                         usable |-> IF Usable(w, i) THEN "yes" ELSE "no",
+                                         dead |-> SetToSeq({[ver |-> d.ver, h |-> d.s.host, r |-> d.s.region] : d \in w.dead[i]}),
+                                         cause |-> SetToSeq(w.cause[i]),
                                          gm |-> RowsJ(IF Usable(w, i) /\ w.ex[i] THEN w.ghm[i] ELSE {}),
                                          gq |-> RowsJ(IF Usable(w, i) /\ w.ex[i] THEN w.ghq[i] ELSE {}),
-                                         scan |-> NameScanLeak(w, i),
-                                         resuf |-> IF "or_suffix_leak" \in ImplDev THEN "yes" ELSE "no"]],
-             name |-> [n \in Names |-> [series |-> SerJ(LiveIdxOfName(w, n)),
-                                         schema |-> IF "tagkeys_from_schema" \in ImplDev /\ \E i \in InstsOfName(n) : Usable(w, i) /\ w.ex[i]
-                                                      THEN "yes" ELSE "no"]]]
+                                         scan |-> NameScanLeak(w, i)]],
+             flags |-> [resuf |-> Flag("or_suffix_leak"), schema |-> Flag("tagkeys_from_schema"),
+                        listrp |-> Flag("listing_ignores_rp")]]
 
 LayersJ == [i \in Insts |-> [mem |-> Cardinality(loc'[i].mem), fl |-> Cardinality(loc'[i].fl),
                              oo |-> Cardinality(loc'[i].oo), co |-> Cardinality(loc'[i].co)]]
@@ -308,8 +344,12 @@ Tag(i, R, how) == {[i |-> i, g |-> r.g, r |-> r, how |-> how] : r \in R}
 \* rows of earlier generations of i (for the mutation seed recreate_reuses_version)
 OldRows(i) == {d.r : d \in {x \in dropped : x.i = i /\ x.how = "measurement"}}
 
+\* (overwriting a live row is the subject of C02: here a write never hits the key of a LIVE row; the key of a
+\* dropped row is written again freely - that is the "fresh series" clause)
+Occupied(i) == {<<r.s, r.t>> : r \in wd.rows[i] \cup wi.rows[i]}
 Write(i, keys) ==
   /\ Usable(wd, i) /\ nw < MaxWrites /\ Local
+  /\ keys \cap Occupied(i) = {}
   /\ wd' = WWrite(wd, i, keys, nv, Dev, OldRows(i))
   /\ wi' = WWrite(wi, i, keys, nv, {}, {})
   /\ loc' = LocAfter(wd')
@@ -320,7 +360,7 @@ Write(i, keys) ==
 DropSeries(i, p) ==
   /\ Usable(wd, i) /\ wd.ex[i] /\ Usable(wi, i) /\ wi.ex[i] /\ Local
   /\ wd' = WDropSeries(wd, i, p, Dev, MemRows)
-  /\ wi' = WDropSeries(wi, i, p, ImplDev, NoRows)
+  /\ wi' = WDropSeries(wi, i, p, ImplDev, MemRows)
   /\ loc' = LocAfter(wd')
   /\ dropped' = dropped \cup Tag(i, NamedSeries(i, p), "series")
   /\ UNCHANGED <<nv, nw>>
@@ -336,7 +376,7 @@ DropSeriesNoFrom(p) ==
 DropMeasurement(i) ==
   /\ Usable(wd, i) /\ wd.ex[i] /\ Local
   /\ wd' = WDropMeasurement(wd, i, Dev, MemRows)
-  /\ wi' = WDropMeasurement(wi, i, {}, NoRows)
+  /\ wi' = WDropMeasurement(wi, i, ImplDev, NoRows)
   /\ loc' = LET fl == FlushLoc(InstsOfRp(RpOf(i)) \ {i})
             IN [j \in Insts |-> IF j = i THEN Without(loc[j], AllLoc(j) \ wd'.rows[j]) ELSE fl[j]]
   /\ dropped' = dropped \cup Tag(i, wd.rows[i], "measurement")
@@ -374,7 +414,8 @@ CreateDatabase ==
 Flush ==
   /\ Global("Flush")
   /\ loc' = FlushLoc(Insts)
-  /\ UNCHANGED <<wd, wi, dropped, nv, nw>>
+  /\ wi' = WFlush(wi)
+  /\ UNCHANGED <<wd, dropped, nv, nw>>
   /\ Log("Flush", <<>>)
 
 Compact ==
@@ -388,8 +429,9 @@ Compact ==
 Restart(kind) ==
   /\ Global(kind)
   /\ wd' = WRestart(wd, Dev, dropped)
+  /\ wi' = WRestartImpl(wi, ImplDev)
   /\ loc' = LocAfter(wd')
-  /\ UNCHANGED <<wi, dropped, nv, nw>>
+  /\ UNCHANGED <<dropped, nv, nw>>
   /\ Log(kind, <<>>)
 
 KeySets == {ks \in SUBSET Key : Cardinality(ks) \in 1..MaxBatch}
